@@ -313,6 +313,39 @@ def variants(scs, tier):
     return out
 
 
+def close_error_scenarios(scs, tier):
+    """The same scenarios under the socket fault "Close returns an error": every socket-like resource (socket, mux handle, relayed
+    allocation) reports an error from its effective Close. The descriptor is gone all the same, and whoever owns further resources
+    behind it (a relay candidate: the TURN client and its base socket) still has to release them."""
+    out = []
+    for s in scs:
+        if s["fault"] != "none" or any(x.get("nowait") for x in s["steps"]):
+            continue
+        if tier != "thorough" and len(s["steps"]) > 6:
+            continue
+        out.append(dict(s, fault="close-error"))
+        if s["site"] == "relay":
+            out.append(dict(s, fault="close-error", site="relay-tcp"))
+    return out
+
+
+def close_family_scenarios():
+    """For C08 (plan_close): the agent is closed while gatherers of every kind are at every stage, with and without the fault
+    "Close returns an error"; judged by what is left behind."""
+    def st(*names):
+        out = []
+        for n in names:
+            a = n.rstrip("0123456789")
+            out.append({"a": a, "k": int(n[len(a):] or 0), "nowait": False})
+        return out
+    shapes = [st("Gather", "Close", "Settle"), st("Gather", "Open1", "Close", "Settle"), st("Gather", "Open1", "Reply1", "Close", "Settle"),
+              st("Gather", "Open1", "Reply1", "Settle", "Close", "Settle"), st("Gather", "Open1", "Timeout1", "Close", "Settle"),
+              st("Gather", "Open1", "Reply1", "Settle", "Restart", "Gather", "Open2", "Close", "Settle"),
+              st("Gather", "Open1", "Reply1", "Settle", "Restart", "Gather", "Open2", "Reply2", "Settle", "Close", "Settle"),
+              st("Gather", "Open1", "Reply1", "Settle", "Fail", "Close", "Settle")]
+    return [{"site": site, "fault": fault, "steps": steps} for site in SITES + ["relay-tcp"] for fault in ("none", "close-error") for steps in shapes]
+
+
 def regression_scenarios(copies=16):
     """Directed cases for the repaired race between addCandidate and Restart (F-C18c, 264d3f6): the gather goroutine is held at
     the task loop's yield point just before loop.Run's select (its context check already passed), Restart runs, then it is let go.
@@ -393,6 +426,10 @@ def c09(tier, seed):
         if var:
             stats["scenarios_variants"] = len(var)
             judge_scenarios(work, binary, verdict, stats, var, C09_PREDS, "variants", c09_features, conform=False)
+        ce = close_error_scenarios(scs, tier)
+        if ce:
+            stats["scenarios_close_error"] = len(ce)
+            judge_scenarios(work, binary, verdict, stats, ce, C09_PREDS, "closeerr", c09_features, conform=False)
         if stats["hung_scenarios"]:
             stats["note_hang"] = "a scenario left a goroutine blocked for ever (reported through NoHang)"
     verdict.coverage.update(stats)
